@@ -133,6 +133,18 @@ def stun_frames(text):
     return out
 
 
+def access_owner(stack_text):
+    """'stun' if the innermost pion/stun-or-harness frame of a race access stack is library code, 'harness' if it is
+    harness code, '' if neither appears."""
+    for line in stack_text.splitlines():
+        s = line.strip()
+        if s.startswith("github.com/pion/stun/v3/verifharness"):
+            return "harness"
+        if s.startswith("github.com/pion/stun/v3.") or s.startswith("github.com/pion/stun/v3/internal/"):
+            return "stun"
+    return ""
+
+
 def crash_key(prop, text):
     """Signature of a fatal child failure: kind of failure + first stun frame."""
     kind = "crash"
@@ -163,6 +175,11 @@ def worker_cmd(binary, spec, prop, tier, seed, config, batch, nbatch, out, journ
         cmd += ["-heapmax", str(spec["heapmax"])]
     if only:
         cmd += ["-only", only]
+    kf = os.path.join(os.path.dirname(out), "known-keys.txt")
+    if os.path.exists(kf):
+        cmd += ["-known", kf]
+    if os.environ.get("VERIF_SECTION"):
+        cmd += ["-section", os.environ["VERIF_SECTION"]]
     return cmd
 
 
@@ -190,8 +207,10 @@ def scan_race_logs(prop, racebase, task):
             # the two access stacks are the first two paragraphs
             paras = [p for p in b.split("\n\n") if p.strip()]
             acc = paras[:2]
+            # who performs each racing access: the innermost frame that is pion/stun or harness code
+            owners = [access_owner(p) for p in acc]
             frames = [stun_frames(p) for p in acc]
-            if any(frames):
+            if "stun" in owners:
                 outer = tuple(sorted((fr[-1] if fr else "harness") for fr in frames))
                 key = "%s:race:%s|%s" % (prop, outer[0], outer[1] if len(outer) > 1 else "")
                 if key not in task.race_pairs:
@@ -322,6 +341,10 @@ def do_check(prop, tier, only=None, only_config=None):
     workdir = os.path.join(BUILD, "run-%s-%d" % (prop, os.getpid()))
     shutil.rmtree(workdir, ignore_errors=True)
     os.makedirs(workdir)
+    with open(os.path.join(workdir, "known-keys.txt"), "w") as f:
+        for k in load_known():
+            if k.get("status") == "known" and k.get("property") == prop:
+                f.write(k["key"] + "\n")
     configs = [only_config] if only_config else spec["configs"][tier]
     binaries = {}
     for cfgname in configs:
